@@ -1305,7 +1305,7 @@ impl Prop for C18 {
         "exploration"
     }
     fn rule(&self) -> String {
-        "Seeded scripts mixing commands with data lines consumed by `read` from the same input, alias definitions and `set -f`/`+f` affecting only later lines, multi-line compound commands, function definitions, line continuations, here-documents, eval, subshells/pipelines, a final consumer of the remaining input (relay/cat/while-read, also as a pipeline stage), `exit` followed by lines that must never be read, and syntax errors planted at later lines. Each script is fed (i) as a regular file on fd 0, (ii) through a pipe written by a simulated feeder process in seeded chunk sizes (1 byte .. whole script, ending inside tokens, at and around newlines) with seeded sleeps, under seeded schedules with preemption at every read, (iii) as a -c string and (iv) as a command file when it does not read stdin. Oracles: stdout/status equal to the generator's expectation in every variant; at every `tell` probe the input offset (lseek for files; bytes read from fd 0 by the shell, from kernel events, for pipes) equals the end of the command's last line. Distinct non-trivial = distinct (script, variant, schedule hash, fault count) with >= 2 processes or a fired fault. Added: here-documents in every newline position of the grammar, lines longer than 4 KiB with multi-byte characters, and two fault configurations with a prefix oracle - the input ends after a seeded number of bytes (short file / feeder closes the pipe), or the input file's reads fail with EIO from a seeded read on (also as a transient error of that one read, where only the shell's own reader reads the file). Also units with two redirections of descriptor 0 on one command (`read a <<E1 <<E2`): the command sees the last one, and afterwards the shell goes on reading its own input where it was. A fifth of the scripts are also fed to an interactive shell (`-i`, standard input variants; prompts on stderr are not compared): same commands, same offsets, and after a one-line syntax error the shell goes on with the next line.".into()
+        "Seeded scripts mixing commands with data lines consumed by `read` from the same input, alias definitions and `set -f`/`+f` affecting only later lines, multi-line compound commands, function definitions, line continuations, here-documents, eval, subshells/pipelines, a final consumer of the remaining input (relay/cat/while-read, also as a pipeline stage), `exit` followed by lines that must never be read, and syntax errors planted at later lines. Each script is fed (i) as a regular file on fd 0, (ii) through a pipe written by a simulated feeder process in seeded chunk sizes (1 byte .. whole script, ending inside tokens, at and around newlines) with seeded sleeps, under seeded schedules with preemption at every read, (iii) as a -c string and (iv) as a command file when it does not read stdin. Oracles: stdout/status equal to the generator's expectation in every variant; at every `tell` probe the input offset (lseek for files; bytes read from fd 0 by the shell, from kernel events, for pipes) equals the end of the command's last line. Distinct non-trivial = distinct (script, variant, schedule hash, fault count) with >= 2 processes or a fired fault. Added: here-documents in every newline position of the grammar, lines longer than 4 KiB with multi-byte characters, and two fault configurations with a prefix oracle - the input ends after a seeded number of bytes (short file / feeder closes the pipe), or the input file's reads fail with EIO from a seeded read on (also as a transient error of that one read, where only the shell's own reader reads the file). Also units with two redirections of descriptor 0 on one command (`read a <<E1 <<E2`): the command sees the last one, and afterwards the shell goes on reading its own input where it was. A fifth of the scripts are also fed to an interactive shell (`-i`, standard input variants; prompts on stderr are not compared): same commands, same offsets, and after a one-line syntax error (also one whose offending token is the newline) the shell goes on with the next line. Also: a dot script that appends a line to itself (read line by line while it runs), and scripts that close the standard error before switching the verbose option on (every line still runs).".into()
     }
     fn assumptions(&self) -> Vec<String> {
         vec![
